@@ -37,6 +37,8 @@ def _empty_kind(e):
         return "counter"
     if t == "None":
         return "none"
+    if t in ("0", "0.0"):
+        return "sum"
     return None
 
 
@@ -72,6 +74,8 @@ def _loop_mutations(loop):
             return ("counter", st.target.value.id, st.target.slice)
         if isinstance(st, ast.Assign) and len(st.targets) == 1 and isinstance(st.targets[0], ast.Subscript) and isinstance(st.targets[0].value, ast.Name):
             return ("dict", st.targets[0].value.id, (st.targets[0].slice, st.value))
+        if isinstance(st, ast.AugAssign) and isinstance(st.op, ast.Add) and isinstance(st.target, ast.Name):
+            return ("sum", st.target.id, st.value)
         return None
 
     def sub_payload(kind, payload):
@@ -153,6 +157,8 @@ def _comp(kind, payload, target, it, conds):
         return ast.SetComp(elt=payload, generators=[gen])
     if kind == "dict":
         return ast.DictComp(key=payload[0], value=payload[1], generators=[gen])
+    if kind == "sum":
+        return ast.Call(func=ast.Name(id="sum", ctx=ast.Load()), args=[ast.GeneratorExp(elt=payload, generators=[gen])], keywords=[])
     if kind == "counter":
         return ast.Call(func=ast.Name(id="Counter", ctx=ast.Load()), args=[ast.GeneratorExp(elt=payload, generators=[gen])], keywords=[])
     raise Unsupported(kind)
